@@ -13,7 +13,7 @@ def tk(s):
     return int((s.now - T0) / TICK + 1e-9)
 
 
-def run_scenario(sc, strategy=None):
+def run_scenario(sc, strategy=None, race=False):
     """sc: dict(modules=[dict(interval=ticks, slow=ticks, dopoll=[(dur, outcome)...],
                               reads={'a': [(dur, outcome)...], 'b': [...]}, nopoll=['c'], writes={'w': value})],
                env=[(at_tick, action, module_index, arg)], horizon=ticks, startup_fail=bool)
@@ -26,9 +26,10 @@ def run_scenario(sc, strategy=None):
     from frappy.params import Parameter
     from frappy.rwhandler import nopoll
 
-    s = ds.Scheduler(strategy or ds.GuidedStrategy([]), max_steps=400000, eps=EPS, wait_eps=EPS)
+    s = ds.Scheduler(strategy or ds.GuidedStrategy([]), max_steps=400000, eps=EPS, wait_eps=EPS, yield_on_time=race)
     log = []
     counters = {}
+    done = {}
 
     def act(mi, fn, script):
         k = counters.get((mi, fn), 0)
@@ -39,6 +40,7 @@ def run_scenario(sc, strategy=None):
         log.append({'ev': 'call', 't': tk(s), 'm': mi, 'fn': fn, 'out': outcome, 'dur': dur, 'th': who})
         if dur:
             s.sleep(dur * TICK)
+        done[(mi, fn)] = done.get((mi, fn), 0) + 1     # lets the environment act right after the k-th call ended
         if outcome == 'secop':
             raise HardwareError('scripted')
         if outcome == 'silent':
@@ -113,10 +115,14 @@ def run_scenario(sc, strategy=None):
             main.startModule(Starter())
 
         def env():
-            for at, action, mi, arg in sorted(sc.get('env', [])):
-                delay = at * TICK - (s.now - T0)
-                if delay > 0:
-                    s.sleep(delay)
+            for at, action, mi, arg in sorted(sc.get('env', []), key=lambda e: (isinstance(e[0], tuple), e[0] if not isinstance(e[0], tuple) else e[0][1])):
+                if isinstance(at, tuple):       # ('after', k): right after the k-th doPoll of module mi returned
+                    k = at[1]
+                    s.block(lambda: done.get((mi, 'doPoll'), 0) >= k, None, 'env.after')
+                else:
+                    delay = at * TICK - (s.now - T0)
+                    if delay > 0:
+                        s.sleep(delay)
                 log.append({'ev': 'env', 't': tk(s), 'action': action, 'm': mi, 'arg': arg})
                 m = mods[mi]
                 if action == 'fast':
@@ -142,4 +148,5 @@ def run_scenario(sc, strategy=None):
         s.teardown = teardown
         s.run()
     log.append({'ev': 'end', 't': sc['horizon'], 'alive': bool(snap.get('alive')), 'exc': sorted(snap.get('exc', {}).values())})
-    return {'log': log, 'livelock': s.livelock, 'deadlock': s.deadlock, 'steps': s.steps}
+    return {'log': log, 'livelock': s.livelock, 'deadlock': s.deadlock, 'steps': s.steps,
+            'choices': [c for _, c in s.choices], 'raw_choices': list(s.choices)}
